@@ -4082,6 +4082,16 @@ func (l *Lowerer) lowerLocalVar(v *parser.VarDecl, target *[]ir.Statement) error
 	l.scopeSet(v.Name)
 	l.locals[v.Name] = exprHandle
 
+	// A `var` without initializer that is declared inside a loop body is a new,
+	// zero-valued variable each time the declaration is executed: reset it.
+	if v.Init == nil && l.isInsideLoop {
+		zero := l.interruptEmitter(ir.Expression{Kind: ir.ExprZeroValue{Type: typeHandle}})
+		*target = append(*target, ir.Statement{Kind: ir.StmtStore{
+			Pointer: exprHandle,
+			Value:   zero,
+		}})
+	}
+
 	// Emit Store for runtime initial values (or const values inside loops).
 	if needStore {
 		*target = append(*target, ir.Statement{Kind: ir.StmtStore{
